@@ -206,9 +206,16 @@ def panic_case(args):
         if (victim + ".mk") in impl["fs"]:
             problems.append(("failed-output-appeared", "%s: its output %r is at the final path" % (what, victim + ".mk")))
         ran = impl["fs"].get("dep.ran")
+        known = []
         if ran and (victim + ".mk") in (ran[1] or ""):
-            problems.append(("dependant-executed", "%s: the task that depends on its output executed" % what))
-        return {"spec": sp.text(with_files=False)[:4000], "bufsize": sp.bufsize, "problems": problems, "ntasks": 2 * L, "rc": impl["rc"], "stderr": impl["stderr"][-300:],
+            if not problems and impl["rc"] == 2 and ("panic: " in impl["stderr"] or "goroutine " in impl["stderr"]):     # died of the panic itself
+                # finding D25 (recorded): the program does die of the panic (non-zero status, no completion, no output), but while
+                # the panic unwinds, Task.Execute's `defer close(t.Done)` runs and Process.Run takes the closed channel for
+                # "task done": the dependant may start before the runtime has finished crashing
+                known.append("panic-unwinding-closes-done")
+            else:
+                problems.append(("dependant-executed", "%s: the task that depends on its output executed" % what))
+        return {"spec": sp.text(with_files=False)[:4000], "bufsize": sp.bufsize, "problems": problems, "known": known, "ntasks": 2 * L, "rc": impl["rc"], "stderr": impl["stderr"][-300:],
                 "yield": None, "wall": impl["wall"], "mode": "gofunc-" + kind, "gofunc": True, "status": "fail"}
     finally:
         sc.close()
@@ -271,6 +278,13 @@ def run(rep, tier, seed):
     results += t3.run_many(unformable_rerun_case, [(seed, i) for i in range(n // 10)])
     results += t3.run_many(odd_command_case, [(seed, i) for i in range(n // 10)])
     results += t3.run_many(panic_case, [(seed, i) for i in range(max(4, n // 20))])
+    kf = vlib.known_findings("C09")
+    for r in results:
+        if r.get("known"):
+            if any(f["kind"] == "panic-unwinding-closes-done" for f in kf):
+                rep.known_finding("a Go-function task that panics: while the panic unwinds, Task.Execute's deferred close(t.Done) lets Process.Run forward the task's out-IPs, and a dependant can start before the runtime has finished crashing (exit status and missing outputs are as required)")
+            else:
+                r["problems"].append(("dependant-executed", "a dependant of a panicking Go-function task executed"))
     t3.report_t3(rep, MODULE, proved, results, "T3 failure injection")
     rep.cov["evaluations"] = len(results)
     rep.cov["distinct_nontrivial"] = len({r["spec"] for r in results if r["ntasks"] >= 2})
